@@ -48,7 +48,13 @@ def snap():
     from _pytask.task_utils import COLLECTED_TASKS
     from _pytask.traceback import Traceback
 
+    from _pytask.console import console
+
     return {
+        # rich's live displays on the global console and the class-level state of the debugger support
+        "live_stack": len(getattr(console, "_live_stack", []) or []) + (1 if getattr(console, "_live", None) is not None else 0),
+        "pdb_state": [PytaskPDB._pluginmanager is None, PytaskPDB._config is None, PytaskPDB._wrapped_pdb_cls is None,
+                      int(PytaskPDB._recursive_debug)],
         "fds": fds,
         "stat": st,
         "std_same": [sys.stdin is ORIG[0], sys.stdout is ORIG[1], sys.stderr is ORIG[2]],
@@ -72,20 +78,31 @@ def main() -> int:
     try:
         import pytask
 
+        sys.path.insert(0, spec["root"])   # the non-interactive debugger class (pdbcls) lives in <root>/c15pdb.py
+        init = spec.get("init")
+        if init == "close_fd0":
+            os.close(0)                    # the caller has no standard input at all
+        elif init == "close_stdin":
+            sys.stdin.close()              # ... or closed the Python object (which closes descriptor 0, too)
         res["initial"] = snap()
         for b in spec["builds"]:
             root = Path(spec["root"])
             if "ctl" in b:
                 # what task bodies read at run time (not a declared dependency): lets a task fail in one build and pass in the next
                 (root / b["sub"] / "ctl.txt").write_text(b["ctl"])
-            db = root / ".pytask" / "pytask.sqlite3"
-            aside = root / ".pytask" / "pytask.sqlite3.aside"
+            proj = root / b["sub"] if (root / b["sub"] / "pyproject.toml").exists() else root   # the project root pytask will find
+            db = proj / ".pytask" / "pytask.sqlite3"
+            aside = proj / ".pytask" / "pytask.sqlite3.aside"
             if b.get("corrupt_db"):
                 # a database file that is not a database: create_database fails while pytask is configured
                 db.parent.mkdir(exist_ok=True)
                 if db.exists():
                     db.rename(aside)
                 db.write_text("this is not a database " * 40)
+            if b.get("corrupt_hashes"):
+                # the cache of file hashes pytask rewrites at the end of every build, broken by someone else in between
+                (proj / ".pytask").mkdir(exist_ok=True)
+                (proj / ".pytask" / "file_hashes.json").write_text('{"broken": ')
             rec = {"before": snap()}
             try:
                 session = pytask.build(paths=root / b["sub"], **b["kw"])
